@@ -188,6 +188,102 @@ def rep_pass(res, ctx, cases, hc, enc, impl, mods):
     return reps
 
 
+# ---- the PROVED rounding bound (C01_rounding_error_accumulates; extraction group "dectransfer",
+# entry 2: coq/Exec/CodecDecTransfer.v run_errclass) ----
+def parse_errclass(ints):
+    rd = Reader(ints)
+    if rd.z() != 1:
+        return None
+    out = {}
+    for _ in range(rd.z()):
+        s, okf, k, c, n = rd.z(), rd.z(), rd.z(), rd.q(), rd.z()
+        rows = []
+        for _ in range(n):
+            post = (rd.q(), rd.q(), rd.opt())
+            rows.append((post, rd.opt()))
+        out[s] = (k if okf else -1, c, rows)
+    return out
+
+
+def acc_corpus():
+    """the Example C01_rounding_error_accumulates_nonvacuous of coq/Properties/C01.v as a CSV case
+    (per-share cost 10/3 at the first sale: the rounded and the exact ledger differ from row 1 on)"""
+    def row(day, act, sh=None, aps=None, com=None, split=None):
+        r = {"sec": "FOO", "td": gen.BASE_DAY + day - 2, "sd": gen.BASE_DAY + day, "act": act,
+             "cur": None, "rate": None, "af": "Default"}
+        if sh is not None:
+            r["sh"] = (sh, Fraction(sh))
+        if aps is not None:
+            r["aps"] = (aps, Fraction(aps))
+        if com is not None:
+            r["com"] = (com, Fraction(com))
+        if split:
+            r["split"] = split
+        return r
+    return {"rows": [row(100, "Buy", "3", "3", "1"), row(200, "Sell", "1", "5", "0"), row(300, "Buy", "2", "1", "0"),
+                     row(400, "RoC", aps="0.1"), row(500, "Sell", "2", "4", "0.5"),
+                     row(600, "Split", split=("2", "1"))], "inits": {}}
+
+
+def bound_pass(res, ctx, cases, hc, enc, impl, mods):
+    """every case through entry 2: per security the smallest k with in_class k (rounded rows, exact rows)
+    and the per-row constant cR k.  Inside the class the theorem bounds the deviation of row r of the
+    rounded ledger from the exact ledger by (r+1) * cR k: the IMPLEMENTATION's balances must equal the
+    exact ones and its cost base and gain must lie within that PROVED bound (far below the generic
+    1e-9), and so must the extracted rounded model's (the theorem re-checked on the extracted code)"""
+    st = ctx["stats"]
+    outs = [parse_errclass(o) for o in run_model([[2] + e[0][1:] for e in enc], group="dectransfer")]
+    for k_, pr in enumerate(outs):
+        st["bound_evaluations"] += 1
+        if pr is None:
+            continue
+        hit = False
+        for who, rep in (("impl", impl[k_]), ("model", mods[k_])):
+            if rep.get("status") != "ok":
+                continue
+            for s, (k, c, rows) in pr.items():
+                so = rep["secs"].get(s)
+                if k < 0 or not rows or so is None:
+                    continue
+                if who == "impl":
+                    hit = True
+                    st["bound_securities"] += 1
+                    st["bound_k=%d" % k] += 1
+                for r, (d, (post, gain)) in enumerate(zip(so["deltas"], rows)):
+                    b = (r + 1) * c
+                    bad = None
+                    if d["post"][0] != post[0] or d["post"][1] != post[1]:
+                        bad = ("share balance", d["post"][:2], post[:2])
+                    elif not core.close(d["post"][2], post[2], b):
+                        bad = ("total cost base", d["post"][2], post[2])
+                    elif not core.close(d["gain"], gain, b):
+                        bad = ("capital gain", d["gain"], gain)
+                    if who == "impl":
+                        st["bound_rows_checked"] += 1
+                        dev = max([Fraction(0)] + [abs(x - y) for x, y in ((d["post"][2], post[2]), (d["gain"], gain))
+                                                   if x is not None and y is not None])
+                        if dev > 0:
+                            st["bound_rows_with_rounding"] += 1
+                        ctx["bound_max_ratio"] = max(ctx.get("bound_max_ratio", Fraction(0)), dev / b)
+                        ctx["bound_max_bound"] = max(ctx.get("bound_max_bound", Fraction(0)), b)
+                    if bad and who == "impl":
+                        res.violation("failing-input",
+                                      "row %d of security #%s: %s reported %s, the exact average-cost ledger gives %s: "
+                                      "the difference exceeds what decimal rounding can cause on this history "
+                                      "(proved bound %.3e, k=%d)" % (r, s, bad[0], bad[1], bad[2], float(b), k),
+                                      {"input": hc[k_], "row": r, "figure": bad[0], "actual_impl": str(bad[1]),
+                                       "expected_exact": str(bad[2]), "proved_bound": str(b),
+                                       "theorem": "C01_rounding_error_accumulates"})
+                        break
+                    if bad:
+                        ctx["bound_theorem_diffs"].append((hc[k_], "row %d of security #%s: %s rounded model %s exact %s bound %s"
+                                                           % (r, s, bad[0], bad[1], bad[2], b)))
+                        break
+        if hit:
+            st["bound_cases"] += 1
+    return outs
+
+
 def check_cases(res, ctx, cases, label):
     exe = ctx["exe"]
     hc = [{"files": corecheck.split_files(c["rows"]), "init": gen.init_specs(c), "render": True} for c in cases]
@@ -207,6 +303,7 @@ def check_cases(res, ctx, cases, label):
     mods = [core.parse_model(mo) for mo in mod_raw]
     impls = [core.parse_impl(io, e[1], e[2]) for e, io in zip(enc, impl_raw)]
     ctx["last_reps"] = rep_pass(res, ctx, cases, hc, enc, impls, mods)
+    ctx["last_bounds"] = bound_pass(res, ctx, cases, hc, enc, impls, mods)
     spec_jobs = []
     for k, (c, e, io, mo) in enumerate(zip(cases, enc, impl_raw, mod_raw)):
         m = mods[k]
@@ -273,7 +370,7 @@ def run(res, ctx):
     tier, seed = ctx["tier"], ctx["seed"]
     rng = random.Random(seed * 7919 + 1)
     ctx.update(stats=collections.Counter(), seen=set(), samples=[], corr_diffs=[], max_err=Fraction(0), known_hit={},
-               rep_theorem_diffs=[])
+               rep_theorem_diffs=[], bound_theorem_diffs=[])
     n_arith = 20000 if tier == "quick" else 200000
     av = arithcheck.validate(ctx["exe"], rng, n_arith)
     if av["mismatches"]:
@@ -290,6 +387,16 @@ def run(res, ctx):
                           "C01_rep_refuses_thirds: rounding-free=%s rows=%d, expected %s / %s" % (rep_free(r), got_rows, want_free, want_rows),
                           {"theorem_or_projection": "C01_rep_nonvacuous, C01_rep_refuses_thirds",
                            "input": {"files": corecheck.split_files(c["rows"])}}, found_input=False)
+    # the Example of the accumulation theorem, through the CSV reader of the real code
+    check_cases(res, ctx, [acc_corpus()], "acc-corpus")
+    got = (ctx["last_bounds"][0] or {})
+    got = [(k, len(rows)) for k, _, rows in got.values()]
+    if got != [(1, 6)]:
+        res.violation("broken-correspondence",
+                      "the extracted class predicate does not behave like the Example "
+                      "C01_rounding_error_accumulates_nonvacuous: (k, rows) = %s, expected [(1, 6)]" % got,
+                      {"theorem_or_projection": "C01_rounding_error_accumulates_nonvacuous",
+                       "input": {"files": corecheck.split_files(acc_corpus()["rows"])}}, found_input=False)
     n = 1000 if tier == "quick" else 30000
     batch = 400
     done = 0
@@ -340,7 +447,25 @@ def run(res, ctx):
                       "C01_app_dec_equals_exact_when_representable" % what,
                       {"theorem_or_projection": "C01_app_dec_equals_exact_when_representable (extraction / codec)",
                        "input": hc0, "differing_cases": len(ctx["rep_theorem_diffs"])}, found_input=False)
+    if ctx["bound_theorem_diffs"] and not res.violations:
+        hc0, what = ctx["bound_theorem_diffs"][0]
+        res.violation("broken-correspondence",
+                      "the extracted rounded model leaves the proved bound of C01_rounding_error_accumulates: " + what,
+                      {"theorem_or_projection": "C01_rounding_error_accumulates (extraction / codec)",
+                       "input": hc0, "differing_cases": len(ctx["bound_theorem_diffs"])}, found_input=False)
     res.coverage.update({
+        "proved_rounding_bound": {
+            "rule": "entry 2 of the extraction group dectransfer: the smallest k <= 13 with in_class k (rows of the rounded "
+                    "ledger, rows of the exact ledger) per security (no superficial loss, share balances not rounded, "
+                    "not registered, Buy/Sell/RoC/Split with quantities <= 10^k, rates <= 10, per-share cost <= 10^(k+1)); "
+                    "there row r of the implementation must have the exact ledger's balances and a cost base and gain "
+                    "within (r+1) * 2.6e-(26-2k) of the exact ledger's (C01_rounding_error_accumulates)",
+            "evaluations": st["bound_evaluations"], "cases_inside_class": st["bound_cases"],
+            "securities_inside_class": st["bound_securities"], "rows_checked": st["bound_rows_checked"],
+            "rows_where_rounded_differs_from_exact": st["bound_rows_with_rounding"],
+            "by_k": {k: v for k, v in sorted(st.items()) if k.startswith("bound_k=")},
+            "largest_bound_used": float(ctx.get("bound_max_bound", 0)),
+            "largest_deviation_over_bound": float(ctx.get("bound_max_ratio", 0))},
         "rounding_free_cases": st["rounding_free_cases"],
         "rounding_free_fraction": round(st["rounding_free_cases"] / max(1, st["rep_evaluations"]), 4),
         "rounding_free": {"rule": "the extracted ledger under the representable arithmetic rep (group dectransfer) "
